@@ -11,6 +11,7 @@ use futures::task;
 
 use std::mem;
 use std::sync::*;
+#[cfg(desync_verif)] use vsched::sync::{Mutex, Condvar};
 use std::pin::{Pin};
 
 ///
